@@ -29,7 +29,7 @@ func init() {
 				"reported as information.",
 			NotCovered: "that (*dns.Msg).Unpack is a function of its argument only (trusted); semantics of the " +
 				"third-party DNSCrypt and HTTP libraries' own buffers.",
-			Rules: map[string]string{"C06-R6": "pooled per-request objects (filtering context, request info) are fully re-initialised when taken from the pool", "C06-R5": "a response goes back to the message pools only from writers after which nothing reads it (dispose gates, shared with C07-R3)",
+			Rules: map[string]string{"C06-R7": "deep-copy discipline of the record constructors and the cloner (shared with C07-R5)", "C06-R6": "pooled per-request objects (filtering context, request info) are fully re-initialised when taken from the pool", "C06-R5": "a response goes back to the message pools only from writers after which nothing reads it (dispose gates, shared with C07-R3)",
 				"C06-R1": "length provenance of every (*dns.Msg).Unpack argument: Bounded | FullyRead | Fresh on all paths",
 				"C06-R3": "buffer-pool wiring: a pool field of a reader / writer is set from the server's pool field of the same name (request buffers and response buffers never share a pool)",
 				"C06-R2": "no use of a pooled receive buffer after Pool.Put on any path; Put after hand-over to a worker only inside the worker",
@@ -600,6 +600,10 @@ func runC06(c *an.Ctx) {
 	// ---- R6: the decoded query and what was derived from it do not survive in pooled per-request objects
 	c.Floor("C06-R6", 5)
 	sharedPoolInitSweep(c, "C06-R6", "dnssvc/internal/mainmw.filteringContext", "filter/internal.Request", "filter/internal.Response", "agd.RequestInfo", "dnsserver.RequestInfo")
+	// ---- R7: records built by the cloner own their address bytes (no alias of the source message's bytes that a
+	// later constructed answer overwrites in place; shared with C07-R5)
+	c.Floor("C06-R7", 10)
+	c07Cloner(c, "C06-R7")
 	// ---- R5: a response is handed back to the message pools only by the writers after which nothing reads it
 	// (a message recycled while a DoH/DoQ/DNSCrypt writer still packs it is another client's answer); shared with C07-R3
 	c.Floor("C06-R5", 2)
